@@ -812,6 +812,8 @@ func (it *Interp) beginPath() {
 	it.md5Apps = nil
 	it.md5Acc = nil
 	it.atoiMap = nil
+	it.fpInt = nil
+	it.fpDiv = nil
 	it.fmtTimeVals = nil
 }
 
@@ -875,6 +877,8 @@ func (it *Interp) RunJob(name string, fn *ssa.Function, params map[string]int, o
 			j.note("truncated-allocation")
 		}
 		switch p.Outcome {
+		case "assertfail":
+			j.note("path-ended-at-failed-assert:" + p.Msg)
 		case "panic":
 			it.violation("panic", p.Msg, nil)
 		case "budget":
